@@ -44,6 +44,10 @@ func (c *Ctx) chk(class string, l int64, s string) (impl string, specOK bool) {
 		c.rep.Classes["(not stream-safe)"]++
 		if impl == "ok" {
 			c.rep.violate(Violation{Kind: "impl≠spec", Class: class, Op: op, Impl: impl, Model: m, Spec: sp, Detail: "non-stream-safe input accepted"})
+		} else if !sameChk(impl, m) {
+			// the model runs the executable model of x/text's stream-safe NFKD, so it must give the very
+			// same error (kind, token, position) here too
+			c.rep.stale(Violation{Kind: "impl≠model", Class: class, Op: op, Impl: impl, Model: m, Spec: sp, Detail: "non-stream-safe input: model (x/text's NFKD modelled) and implementation reject differently"})
 		}
 		return
 	}
